@@ -18,7 +18,7 @@
 EXTENDS LOOperators
 
 \* 1-based indices of the floating tensors among t.ts
-GR_FloatTs(t) == CASE t.cls = "Interp" -> {2, 4}
+GR_FloatTs(t) == CASE t.cls \in {"Interp", "InterpI32"} -> {2, 4}
                    [] t.cls = "InterpLeft" -> {2}
                    [] t.cls \in {"Masked", "Perm", "TransPerm", "Identity", "Zero"} -> {}
                    [] OTHER -> 1..Len(t.ts)
